@@ -1117,6 +1117,8 @@ def _big(ex, fname, args, ins, where):
         x = big_get(ex, z, where)
         if not is_sym(x.mag) and not is_sym(x.neg):
             return (not x.neg) and x.mag < 2 ** 64
+        if ex.intmode:
+            return z3.And(z3.Not(to_bool(x.neg)), ex.ib(x.mag) < 2 ** 64)
         mg = mag_bv(ex, x.mag)
         return simp(z3.And(z3.Not(to_bool(x.neg)), z3.ULT(mg, z3.BitVecVal(2 ** 64, W))))
     if m in ('String', 'Text'):
